@@ -234,6 +234,26 @@ def generate(ctx):
             if len(inf):
                 sel = sorted(rng.choice(inf, max(1, len(inf) // 2), replace=False).tolist())
                 recs.append(dict(base, sub={'mode': 'ifacets', 'ids': sel, 'side': int(q % 2)}))
+    # --- matrices on integer Delaunay meshes (irregular valence, arbitrary local orders)
+    dl = {'tri': [(DC.C('ElementTriP2'), DC.C('ElementTriP2')), (DC.C('ElementTriRT1'), DC.C('ElementTriP0')),
+                  ({'comp': [DC.C('ElementTriMini'), DC.C('ElementTriP1')]},) * 2, ({'dg': DC.C('ElementTriP1')},) * 2],
+          'tet': [(DC.C('ElementTetP2'), DC.C('ElementTetP1')), (DC.C('ElementTetN1'), DC.C('ElementTetN1')),
+                  ({'comp': [DC.C('ElementTetN1'), DC.C('ElementTetRT1')]},) * 2]}
+    for j in range(8 if thorough else 2):
+        dim = 2 + (j % 2)
+        kind = 'tri' if dim == 2 else 'tet'
+        p, t = U.delaunay_int(dim, int(rng.integers(7, 13 if dim == 2 else 8)), 6 if dim == 2 else 3, rng)
+        if t.shape[1] < 3:
+            continue
+        t = U.apply_local_orders(kind, t, rng)
+        mrec = DC.mesh_rec(kind, p, t)
+        nt = t.shape[1]
+        for (st, su) in dl[kind]:
+            base = {'driver': 'matrix', 'family': 'matrix-delaunay', 'mesh': mrec, 'test': st, 'trial': su,
+                    'intorder': 3}
+            recs.append(dict(base, sub={'mode': 'all'}))
+            recs.append(dict(base, sub={'mode': 'cells',
+                                        'ids': sorted(rng.choice(nt, max(1, nt // 3), replace=False).tolist())}))
     return recs
 
 
